@@ -22,11 +22,17 @@ structure Cfg.Good (c : Cfg) : Prop where
   tbl : c.tbl.adequate = true
   credit : c.creditLoop = stdLoop
   reconnect : c.reconnectLoop = stdLoop
+  creditAtomic : c.creditAtomic = true
+  reconnectAtomic : c.reconnectAtomic = true
 
 instance (c : Cfg) : Decidable c.Good :=
-  if h : c.tbl.adequate = true ∧ c.creditLoop = stdLoop ∧ c.reconnectLoop = stdLoop
-  then isTrue ⟨h.1, h.2.1, h.2.2⟩
-  else isFalse fun g => h ⟨g.tbl, g.credit, g.reconnect⟩
+  if h : c.tbl.adequate = true ∧ c.creditLoop = stdLoop ∧ c.reconnectLoop = stdLoop ∧
+      c.creditAtomic = true ∧ c.reconnectAtomic = true
+  then isTrue ⟨h.1, h.2.1, h.2.2.1, h.2.2.2.1, h.2.2.2.2⟩
+  else isFalse fun g => h ⟨g.tbl, g.credit, g.reconnect, g.creditAtomic, g.reconnectAtomic⟩
+
+theorem Cfg.Good.atomicOf {c : Cfg} (g : c.Good) (k : Kind) : c.atomicOf k = true := by
+  cases k <;> simp [Cfg.atomicOf, g.creditAtomic, g.reconnectAtomic]
 
 theorem Cfg.Good.loopOf {c : Cfg} (g : c.Good) (k : Kind) : c.loopOf k = stdLoop := by
   cases k <;> simp [Cfg.loopOf, g.credit, g.reconnect]
@@ -173,9 +179,12 @@ theorem runBody_std_false (k : Kind) (e : Bool) (s : Sh) (hp : pred k s = false)
 structure NoLost (k : Kind) (st : St) : Prop where
   parked : st.pc = .parked → pred k st.sh = false
   mutex : st.locked = true ↔ st.pc = .checking
+  /-- with check-and-park in one critical section the waiter is never between its tests and its wait
+  without the mutex -/
+  notPre : st.pc ≠ .preparking
 
 theorem NoLost.init (k : Kind) (s : Sh) : NoLost k (St.init s) :=
-  ⟨by simp [St.init], by simp [St.init]⟩
+  ⟨by simp [St.init], by simp [St.init], by simp [St.init]⟩
 
 theorem NoLost.step {c : Cfg} (g : c.Good) {k : Kind} {st : St} (h : NoLost k st) (e : Ev) :
     NoLost k (step c k st e) := by
@@ -183,25 +192,27 @@ theorem NoLost.step {c : Cfg} (g : c.Good) {k : Kind} {st : St} (h : NoLost k st
   | lock =>
     simp only [Repe.Condvar.step]
     split
-    · exact ⟨by simp, by simp⟩
-    · exact h
+    · exact ⟨by simp, by simp, by simp⟩
+    · split
+      · rename_i hpre; exact absurd hpre.1 h.notPre
+      · exact h
   | check ex =>
     simp only [Repe.Condvar.step]
     split
-    · rw [g.loopOf]
+    · rw [g.loopOf, g.atomicOf]
       cases hp : pred k st.sh with
       | true =>
         obtain ⟨s', hs', _⟩ := runBody_std_true k ex st.sh hp
-        rw [hs']; exact ⟨by simp, by simp⟩
+        rw [hs']; exact ⟨by simp, by simp, by simp⟩
       | false =>
         rw [runBody_std_false k ex st.sh hp]
-        cases ex <;> exact ⟨by simp [hp], by simp⟩
+        cases ex <;> exact ⟨by simp [hp], by simp, by simp⟩
     · exact h
   | wake =>
     simp only [Repe.Condvar.step]
     split
     · rename_i hpk
-      refine ⟨by simp, ?_⟩
+      refine ⟨by simp, ?_, by simp⟩
       have := h.mutex
       simp only [hpk] at this
       simpa using this
@@ -212,7 +223,7 @@ theorem NoLost.step {c : Cfg} (g : c.Good) {k : Kind} {st : St} (h : NoLost k st
     · exact h
     · rename_i hl
       have hnc : st.pc ≠ .checking := fun hc => hl (h.mutex.mpr hc)
-      constructor
+      refine ⟨?_, ?_, ?_⟩
       · intro hpk
         by_cases hpc : st.pc = .parked
         · simp only [hpc, beq_self_eq_true, Bool.and_true] at hpk ⊢
@@ -237,6 +248,11 @@ theorem NoLost.step {c : Cfg} (g : c.Good) {k : Kind} {st : St} (h : NoLost k st
           split at hh
           · cases hh
           · exact hnc hh
+      · simp only
+        intro hh
+        split at hh
+        · cases hh
+        · exact h.notPre hh
 
 theorem NoLost.run {c : Cfg} (g : c.Good) {k : Kind} (evs : List Ev) {st : St} (h : NoLost k st) :
     NoLost k (run c k st evs) := by
@@ -263,11 +279,13 @@ theorem Bound.step {c : Cfg} (g : c.Good) {k : Kind} {r : Ret} {sh0 : Sh} {st : 
       simp only [Repe.Condvar.step]
       split
       · right; exact ⟨Or.inr (Or.inr rfl), hp, hx, hs, by simp⟩
-      · right; exact ⟨hpc, hp, hx, hs, hm⟩
+      · split
+        · rename_i hpre; rcases hpc with h1 | h1 | h1 <;> simp [h1] at hpre
+        · right; exact ⟨hpc, hp, hx, hs, hm⟩
     | check ex =>
       simp only [Repe.Condvar.step]
       split
-      · rw [g.loopOf]
+      · rw [g.loopOf, g.atomicOf]
         obtain ⟨s', hs', _⟩ := runBody_std_true k ex st.sh hp
         rw [hs']; left; simp [hx]
       · right; exact ⟨hpc, hp, hx, hs, hm⟩
@@ -293,6 +311,7 @@ theorem Bound.of_noLost {k : Kind} {st : St} (h : NoLost k st) (hp : pred k st.s
   | checking => simp
   | woken => simp
   | parked => have := h.parked hpc; simp [hp] at this
+  | preparking => exact absurd hpc h.notPre
   | returned r => simp [hpc, PC.isReturned] at hnr
 
 /-! ### timeouts -/
@@ -306,7 +325,7 @@ theorem check_return {c : Cfg} (g : c.Good) {k : Kind} {st : St} {e : Bool} {r :
   split at h
   · rename_i hck
     refine ⟨hck, ?_⟩
-    rw [g.loopOf] at h
+    rw [g.loopOf, g.atomicOf] at h
     cases hp : pred k st.sh with
     | true =>
       obtain ⟨s', hs', _⟩ := runBody_std_true k e st.sh hp
@@ -328,7 +347,9 @@ theorem return_only_by_check {c : Cfg} {k : Kind} {st : St} {ev : Ev} {r : Ret}
     simp only [Repe.Condvar.step] at h
     split at h
     · simp at h
-    · exact absurd h hpc
+    · split at h
+      · simp at h
+      · exact absurd h hpc
   | wake =>
     simp only [Repe.Condvar.step] at h
     split at h
